@@ -110,5 +110,57 @@ class BinMatching(FragmentContract):
             _CONCRETE.clear()
 
 
+class SignalWindow(FragmentContract):
+    """C17 (signal filter of _extract_and_filter_chrom): after the four statements that tile the bigwig
+    track, values[t] is the sum of the track over the centred out_window of tile t, i.e. over positions
+    t*in_window + [left_flank, in_window - right_flank) - for every window pair 0 < out_window <= in_window,
+    including in_window == out_window (right_flank == 0) and odd differences; only complete tiles are kept."""
+    qualname = 'tangermeme.match._extract_and_filter_chrom'
+    props = ('C17',)
+    stmt_block = ('values = values[:values.shape[0] // in_window * in_window]', 4)
+    key = 'tangermeme.match._extract_and_filter_chrom#signal-window'
+
+    def scopes(self, cfg):
+        return [{'V': 7, 'in_window': 3, 'out_window': 3}, {'V': 8, 'in_window': 4, 'out_window': 1}, {'V': 6, 'in_window': 2, 'out_window': 1},
+                {'V': 5, 'in_window': 5, 'out_window': 4}]
+
+    def make_env(self, cfg, A):
+        V = A.dim('V', 0)
+        inw = A.int('in_window', lo=1)
+        outw = A.int('out_window', lo=1)
+        A.assume(outw <= inw)
+        values = A.tensor('values', 1, 'real', lib='np', shape=[V])
+        # as computed by the two preceding statements of the function
+        left = O.floordiv(inw - outw, 2)
+        right = O.floordiv(inw - outw + 1, 2)
+        return dict(values=values, in_window=inw, out_window=outw, left_flank=left, right_flank=right)
+
+    def replay_fragment(self, cfg, st):
+        import numpy
+        from vf.contract import replay_fragment_generic
+        if st.get('values') is None:
+            return []
+        inw, outw = int(st['in_window']), int(st['out_window'])
+        # integer-valued track: sums are exact in floating point
+        vals = numpy.array([float(int(round(x)) % 97) for x in st['values']], dtype='float64')
+        env = dict(values=vals, in_window=inw, out_window=outw, left_flank=(inw - outw) // 2, right_flank=(inw - outw + 1) // 2)
+        return replay_fragment_generic(self._world, self, cfg, env)
+
+    def post_env(self, b, a, outcome, cfg):
+        from vf.lib import Sum
+        out = [('no-exception', not outcome.startswith('raise'))]
+        v = a.values
+        if not out[0][1] or not isinstance(v, Tn) or v.rank != 1:
+            return out + [('values-is-vector', False)]
+        inw, left, right = b.in_window, b.left_flank, b.right_flank
+        T = O.floordiv(b.values.shape[0], inw)
+        out.append(('one-value-per-complete-tile', O.eq(v.shape[0], T)))
+        from vf.contract import num_eq
+        out.append(('sum-over-the-centred-out-window', O.forall([T], lambda t: num_eq(
+            v.elem(t), Sum(0, inw - right - left, lambda k: b.values.elem(O.mul(t, inw) + left + k), 'real')))))
+        return out
+
+
 def register(world):
     world.register_fragment(BinMatching())
+    world.register_fragment(SignalWindow())
